@@ -166,6 +166,7 @@ macro_rules! serde_types {
         shared_types!($name, $f, $a, match $name {
             "bytes" => $f::<ByteBuf>($a), "bytes2" => $f::<Bytes2>($a), "str2" => $f::<Str2>($a),
             "cseq_u16" => $f::<CollSeq<u16>>($a), "cseq_str" => $f::<CollSeq<String>>($a), "cmap_u8_str" => $f::<CollMap<u8, String>>($a),
+            "kvmap_u8_str" => $f::<KvMap<u8, String>>($a), "kvmap_str_seq" => $f::<KvMap<String, Vec<i32>>>($a), "vec_kvmap" => $f::<Vec<KvMap<u8, bool>>>($a),
             "vec_cseq" => $f::<Vec<CollSeq<u8>>>($a), "tup_cseq_u8" => $f::<(CollSeq<u8>, u8)>($a),
             "useq_u16" => $f::<UnkSeq<u16>>($a), "useq_point" => $f::<UnkSeq<Point>>($a),
             "umap_string_i32" => $f::<UnkMap<String, i32>>($a), "umap_u8_useq" => $f::<UnkMap<u8, UnkSeq<bool>>>($a),
@@ -310,8 +311,28 @@ fn op_ikey(kind: &str, seed: &str) -> String {
     }
 }
 
+/// `sdeb <kind> <hex>`: the bridge decoding types with BORROWING fields in positions that go through serde's Content buffer
+fn op_sdeb(kind: &str, a: &str) -> String {
+    use serde::Deserialize;
+    let hx = |s: &str| hex(s.as_bytes());
+    let b = match sx::unhex(a) { Some(b) => b, None => return "bad-op".into() };
+    let mut de = minicbor_serde::Deserializer::new(&b);
+    let inside = |p: *const u8, n: usize| n == 0 || (p as usize >= b.as_ptr() as usize && p as usize + n <= b.as_ptr() as usize + b.len());
+    let r: Result<String, String> = match kind {
+        "untagged" => UBorrow::deserialize(&mut de).map(|v| match v {
+            UBorrow::S(s) => format!("S:{}{}", hx(s), if inside(s.as_ptr(), s.len()) { "" } else { ":copied" }),
+            UBorrow::B(x) => format!("B:{}{}", hex(x), if inside(x.as_ptr(), x.len()) { "" } else { ":copied" }),
+            UBorrow::N(n) => format!("N:{}", n) }).map_err(|e| e.to_string()),
+        "flatten" => FlatBorrow::deserialize(&mut de).map(|v| format!("{},{}{}", v.id, hx(v.inner.name), if inside(v.inner.name.as_ptr(), v.inner.name.len()) { "" } else { ":copied" })).map_err(|e| e.to_string()),
+        "itag" => ITagBorrow::deserialize(&mut de).map(|v| match v { ITagBorrow::V { s } => format!("V:{}", hx(s)), ITagBorrow::W { n } => format!("W:{}", n) }).map_err(|e| e.to_string()),
+        _ => return "bad-op".into()
+    };
+    match r { Ok(v) => format!("ok {} {}", v, de.decoder().position()), Err(_) => "err".into() }
+}
+
 fn dispatch(w: &[&str]) -> String {
     if w.len() != 3 { return "bad-op".into() }
+    if w[0] == "sdeb" { return op_sdeb(w[1], w[2]) }
     if w[0] == "ikey" { return op_ikey(w[1], w[2]) }
     if w[0] == "serfail" { return op_serfail(w[1], w[2]) }
     if w[0] == "ides2" { return op_ides2(w[1], w[2]) }
